@@ -260,6 +260,10 @@ func (p *Program) runJobsL(fns []*ssa.Function, lemmas []*Contract, cfg SolverCf
 			if o.Kind == "pre-sat" && o.Group != "" {
 				continue // reachability probe: only a quick `unsat` matters
 			}
+			if cfg.Quick[o.Name] {
+				o.Status = "unknown" // listed as undecided: the incremental stage was its one attempt
+				continue
+			}
 			q := pf{j: j, o: o, script: buildSingle(j, o, cfg.TimeoutMs, true)}
 			if o.Kind != "pre-sat" && len(j.Facts) > 400 {
 				q.sliced = append(q.sliced, buildSliced(j, o, 5000, 2))
@@ -289,6 +293,10 @@ func (p *Program) runJobsL(fns []*ssa.Function, lemmas []*Contract, cfg SolverCf
 			psem <- struct{}{}
 			defer func() { <-psem }()
 			cfg := fullCfg
+			if q.o.Kind == "pre-sat" && cfg.TimeoutMs > 20000 {
+				// vacuity guards expect `sat`; an answer that does not come quickly is as good as none
+				cfg.TimeoutMs = 20000
+			}
 			reduced := false
 			if atomic.LoadInt32(&bad) >= 2 {
 				cfg.TimeoutMs = fullCfg.TimeoutMs / 6
